@@ -138,6 +138,9 @@ class Run:
                 self.broken.append({'kind': 'driver', 'stream': modname, 'what': str(e)[:500]})
         known = self.known
         for i, (line, (out, viols)) in enumerate(zip(lines, res)):
+            if 'hang-budget-exhausted' in out:
+                self.cov.branches['skipped-after-hangs'] += 1
+                continue
             self.cov.note(line, mod.nontrivial(line), mod.branch(line, out))
             mine = [m for (p, m) in viols if p == self.prop]
             if mine:
